@@ -159,3 +159,27 @@ def c04_torsion_ranks(prop, tier, seed):
         out["violations"].append({"obligation": f"{prop}/table:torsion_ranks", "replay": _viol(prop, "torsion_ranks", bad),
                                   "reproduced": True, "text": f"{bad[0]}"})
     return out
+
+
+def c03_atom_sets(prop, tier, seed):
+    t = cache.get("atom_sets")
+    bad, n, atoms, failed = [], 0, 0, []
+    for k, v in sorted(t.items()):
+        n += 1
+        if not v.get("ok"):
+            failed.append({"cell": k, "why": v.get("why")})
+            continue
+        atoms += v["atoms"]
+        for p in v["problems"]:
+            bad.append({"cell": k, "problem": p, "generator": "atom_sets"})
+    out = {"name": "c03_atom_set_table", "evaluations": n, "obligations": n, "discharged": n - len({b['cell'] for b in bad}),
+           "counts_as_obligations": False, "violations": [], "undecided": [], "errors": [], "exhaustive": True,
+           "runs_failed": failed,
+           "summary": f"{n} pipeline runs ({atoms} atoms; residue x position x force field, default options and --nodebump / "
+                      f"--noopt): {len(bad)} residues whose final atom set differs from their topology, has duplicates or "
+                      f"placeholders, or atoms neither written nor reported; {len(failed)} runs failed (C12's business)",
+           "assumptions": ["X: complete for the standard amino acids on 3-residue fragments of 1AFS with two waters"]}
+    if bad:
+        out["violations"].append({"obligation": f"{prop}/table:atom_sets", "replay": _viol(prop, "atom_sets", bad),
+                                  "reproduced": True, "text": f"{bad[0]}"})
+    return out
